@@ -3,6 +3,7 @@ random draws, Hensel lifting, subset recombination, multiplicities) against the 
 python oracle for the property's clauses, and the CLI (`rust-number-theory <config>`, to_find = factorization)."""
 import os
 from math import gcd
+import lib
 from lib import line, Id, Case, enc, default_compare
 from props.polymod_common import (trim, zmul, zscal, zprod, zpow, red, deg, pmonic, pgcd, pdivmod, ppowmod, psub,
                                   pderiv, irreducible_rabin)
@@ -431,6 +432,8 @@ def planted(rng, table, maxdeg, maxfac=4, maxmult=12, bigmult=2):
     for g, e in fs: f = zmul(f, zpow(g, e))
     return f, fs
 
+PROFILES = ('debug', 'release')
+
 def cases(rng, tier):
     th = tier == 'thorough'
     for g in TABLE + SD4 + SD8:
@@ -574,4 +577,6 @@ def cases(rng, tier):
         cli_inputs.append((f, rng.choice([0, 0, 1, 3])))
     for f, z in cli_inputs:
         out += cli_cases(f, 'trailing-zeros' if z else 'plain', zeros=z)
+    # a slice of the cases again on the release build of the implementation (wrapping arithmetic, debug assertions off)
+    out += lib.release_slice(out, rng, 0.08, mode_ops=('polyz_factorize',), plain_ops=())
     return out
